@@ -200,6 +200,9 @@ func (d *Driver) FamHist(perType int) {
 		for h := 0; h < perType; h++ {
 			nobj++
 			start := d.S.WithRequired(t, d.S.Random(t, d.R, 0, 4), d.R)
+			if d.R.Intn(4) == 0 {
+				start = d.S.WithUnknowns(t, start, d.R, 0)
+			}
 			o := &histObj{ti: ti, id: nobj}
 			st, note := "", ""
 			guard(&st, &note, func() { o.msg = d.Build(ti, start) })
@@ -254,6 +257,9 @@ func (d *Driver) FamHist(perType int) {
 					e.Out = tr.Bytes(out)
 				case "unmarshal":
 					src := d.S.WithRequired(t, d.S.Random(t, d.R, 0, 4), d.R)
+					if d.R.Intn(2) == 0 {
+						src = d.S.WithUnknowns(t, src, d.R, 0) // data of a newer schema: unknown fields at the top level and in nested messages
+					}
 					b := d.S.Encode(t, src, EncOpts{})
 					e.B = tr.Bytes(b)
 					guard(&e.St, &e.Note, func() { err = o.msg.(unmarshaler).Unmarshal(append([]byte{}, b...)) })
